@@ -127,8 +127,11 @@ impl Report {
         cov.set("distinct_nontrivial", J::i(self.distinct));
         cov.set("rule", J::s(self.rule.clone()));
         cov.set("samples", J::Arr(if self.samples.is_empty() { vec![J::s("(no sample recorded)")] } else { self.samples.clone() }));
-        cov.set("exhaustive", J::Bool(self.exhaustive && self.caps.is_empty()));
-        cov.set("caps_hit", J::arr_s(self.caps.iter().cloned()));
+        // source ports that had to be left out for this tree (none on the pinned tree) are caps of every check
+        let mut caps = self.caps.clone();
+        caps.extend(crate::core::port_notes());
+        cov.set("exhaustive", J::Bool(self.exhaustive && caps.is_empty()));
+        cov.set("caps_hit", J::arr_s(caps.iter().cloned()));
         cov.set("bounds", J::Obj(self.bounds.clone()));
         cov.set("build", J::s(ctx.build.clone()));
         for (k, v) in &self.extra {
